@@ -130,11 +130,11 @@ def alphabets():
 def histories(tier):
     """(kind, keys|maxlen, ops) for every valid op sequence up to a per-kind length."""
     maxlen = {'quick': {'dict': 4, 'odict': 3, 'ddict': 3, 'deque': 4},
-              'thorough': {'dict': 5, 'odict': 4, 'ddict': 4, 'deque': 6}}[tier]
+              'thorough': {'dict': 5, 'odict': 4, 'ddict': 4, 'deque': 5}}[tier]
     pools = {'rev_str': S.KEY_POOLS['rev_str'][:3], 'mixed': S.KEY_POOLS['mixed'][:3],
              'unorderable': S.KEY_POOLS['unorderable'][:3]}
     if tier == 'thorough':
-        pools.update(partly=[S.UKey(0), 3, S.UKey(1)], bool_int=S.KEY_POOLS['bool_int'][:3])
+        pools.update(partly=[S.UKey(0), 3, S.UKey(1)])
     for kind, alpha in alphabets().items():
         params = [2, 3, None] if kind == 'deque' else list(pools.values())
         for n in range(1, maxlen[kind] + 1):
@@ -162,9 +162,11 @@ def run(tier: str, seed: int):
     else:
         g, ds, txt = U.universe(tier, seed, U.EXT, thorough_nodes=4)
         g5, ds5, _ = U.universe(tier, seed, U.EXT, thorough_nodes=5, thorough_sample=None, childless=('leaf', 'none'))
-        ds = ds + [d for d in ds5 if S.count_nodes(d) == 5]
-        ds += U.random_descrs(seed, U.EXT, 6, 30000) + U.random_descrs(seed + 1, U.EXT, 7, 15000)
-        txt += '; all 5-node trees (childless in leaf/None); 30000/15000 seeded random 6/7-node trees'
+        five = [d for d in ds5 if S.count_nodes(d) == 5]
+        __import__('random').Random(seed).shuffle(five)
+        ds = ds + five[:60000]
+        ds += U.random_descrs(seed, U.EXT, 6, 15000) + U.random_descrs(seed + 1, U.EXT, 7, 8000)
+        txt += f'; seeded sample of 60000 of the {len(five)} 5-node trees (childless in leaf/None); 15000/8000 seeded random 6/7-node trees'
     for i, d in enumerate(ds):
         tree = g.build(d)
         ks = U.kinds_in(d)
